@@ -24,7 +24,6 @@ from ..replay import call_real, is_validation_error
 DOCUMENTED = {
     'stdnum.ismn': 'shown in 13-digit form',
     'stdnum.isan': 'shown with check characters added',
-    'stdnum.isil': 'agency prefix upper-cased',
     'stdnum.meid': 'check digit dropped by validate',
 }
 FORMAT_OPTS = {
@@ -69,11 +68,17 @@ def native_violation(modname, x, fopts, vopts=None, today=None):
         if vf[1][:14] != v[:14]:
             return 'validate(format(x))=%r does not embed validate(x)=%r' % (vf[1], v)
         return None
+    if modname == 'stdnum.isil':
+        pre, sep, rest = v.partition('-')
+        want = pre.upper() + sep + rest
+        return None if vf[1] == want else 'validate(format(x))=%r differs from %r (only the agency prefix may be upper-cased)' % (vf[1], want)
     if modname in DOCUMENTED:
         if modname == 'stdnum.ismn':
             want = native_norm(modname, v)
         elif modname == 'stdnum.isil':
-            return None if vf[1].upper() == v.upper() else 'validate(format(x))=%r vs %r' % (vf[1], v)
+            pre, sep, rest = v.partition('-')
+            want = pre.upper() + sep + rest
+            return None if vf[1] == want else 'validate(format(x))=%r differs from %r (only the agency prefix may be upper-cased)' % (vf[1], want)
         elif modname in ('stdnum.isan', 'stdnum.meid'):
             import stdnum.isan
             import stdnum.meid
@@ -85,6 +90,18 @@ def native_violation(modname, x, fopts, vopts=None, today=None):
     if vf[1] != want:
         return 'validate(format(x))=%r differs from validate(x)=%r' % (vf[1], want)
     return None
+
+
+def expected_value(I, modname, v):
+    """what validate(format(x)) must equal, given validate(x) == v: v itself, except for the documented normalisation of
+    ISIL (agency prefix before the first hyphen upper-cased)"""
+    if modname == 'stdnum.isil':
+        parts = I.str_method(tostr(v), 'split', ['-', 1], {})
+        if len(parts) == 2:
+            pre = tostr(I.map_case('upper', tostr(parts[0])))
+            return FixedStr(pre.chars + [45] + tostr(parts[1]).chars)
+        return v
+    return v
 
 
 def checker_factory(modname, fopts_list):
@@ -102,7 +119,7 @@ def checker_factory(modname, fopts_list):
                 if isinstance(fa, AbstractStr):
                     fa = I.materialise(fa)
                 va = I.call(vf, [fa], dict(opts), {}, vf.module)
-                return (fa, fb, va)
+                return (fa, fb, va, expected_value(I, modname, v))
             paths, status = sw.closure(p, run)
             oid = 'len=%s%s' % (n, (' ' + repr(fopts)) if fopts else '')
             if status != 'ok':
@@ -114,9 +131,9 @@ def checker_factory(modname, fopts_list):
                 if isinstance(r, Raise):
                     what = 'format()/validate(format(x)) raises %s (%s)' % (r.cls.__name__, r.why)
                 else:
-                    fa, fb, va = r
+                    fa, fb, va, want = r
                     conds = []
-                    for a, b, w in ((fa, fb, 'format(x) differs from format(validate(x))'), (va, v, 'validate(format(x)) differs from validate(x)')):
+                    for a, b, w in ((fa, fb, 'format(x) differs from format(validate(x))'), (va, want, 'validate(format(x)) differs from validate(x)')):
                         if isinstance(a, LongStr) or isinstance(b, LongStr):
                             raise Unsupported('long string in format')
                         if not isinstance(a, (str, FixedStr)) or not isinstance(b, (str, FixedStr)):
@@ -184,10 +201,10 @@ def still_fails(modname):
 
 def check(prop, tier, args):
     rep = Report('C04', tier, 'proof', './check C04 --tier %s' % tier, seed=int(os.environ.get('VERIF_SEED', '0') or 0))
-    units = accept.accepting_units()
     mods = [m.__name__ for m in front.number_modules() if hasattr(m, 'format')]
     if args.modules:
         mods = [m for m in mods if m in args.modules]
+    units = accept.accepting_units(modules=mods if args.modules else None)
     items = []
     for m in mods:
         ls = sorted({n for o, n in units.get(m, []) if n != 'long'}, key=lambda x: x)
